@@ -551,3 +551,155 @@ def diff_snap(a, b):
                 if a[key][part] != b.get(key, {}).get(part):
                     out.append(f"{key}.{part}")
     return out
+
+
+# --------------------------------------------------------------------------
+# the same paths, on the world (model) side
+# --------------------------------------------------------------------------
+
+
+def class_entry(world, cid):
+    for entry in world["classes"]:
+        if entry["id"] == cid:
+            return entry
+    raise KeyError(cid)
+
+
+def descendants(world, cid):
+    out = []
+    for entry in world["classes"]:
+        base = entry.get("base")
+        while base:
+            if base == cid:
+                out.append(entry["id"])
+                break
+            base = class_entry(world, base).get("base")
+    return out
+
+
+def effective(world, cid):
+    """Effective configuration of a class by the documented inheritance rule:
+    a class keyword that is passed wins, otherwise the parent's effective
+    value is inherited; properties are the parent's (in order), overridden in
+    place, with new ones appended."""
+    entry = class_entry(world, cid)
+    if entry.get("base"):
+        parent = effective(world, entry["base"])
+        props = dict(parent["props"])
+        kw = dict(parent["kw"])
+    else:
+        props, kw = {}, {}
+    for attr, pspec in entry.get("props", {}).items():
+        props[attr] = pspec
+    for key, val in entry.get("kw", {}).items():
+        kw[key] = val
+    for key, val in entry.get("post", []):
+        kw[key] = val
+    return {"props": props, "kw": kw}
+
+
+def deref(world, spec):
+    """Follow Ref/Class indirections: -> ("el", spec) | ("class", entry)."""
+    seen = 0
+    while spec["k"] == "Ref":
+        spec = world["shared"][spec["id"]]
+        seen += 1
+        if seen > 50:
+            raise ValueError("ref cycle")
+    if spec["k"] == "Class":
+        return "class", class_entry(world, spec["id"])
+    return "el", spec
+
+
+def spec_children(world, kind, node):
+    """Children of a model node: list of (step, child spec)."""
+    out = []
+    if kind == "class":
+        eff = effective(world, node["id"])
+        kw, props = eff["kw"], eff["props"]
+    else:
+        kw = node.get("kw", {})
+        props = kw.get("properties") or {}
+    items = kw.get("items")
+    if isinstance(items, list):
+        for idx, item in enumerate(items):
+            out.append((["kwi", "items", idx], item))
+    elif isinstance(items, dict):
+        out.append((["kw", "items"], items))
+    for name in ("additionalItems", "contains"):
+        if isinstance(kw.get(name), dict):
+            out.append((["kw", name], kw[name]))
+    for attr, pspec in props.items():
+        out.append((["prop", attr], pspec["el"]))
+    if isinstance(kw.get("additionalProperties"), dict):
+        out.append((["kw", "additionalProperties"], kw["additionalProperties"]))
+    for key, val in (kw.get("patternProperties") or {}).items():
+        out.append((["kwk", "patternProperties", key], val))
+    if isinstance(kw.get("propertyNames"), dict):
+        out.append((["kw", "propertyNames"], kw["propertyNames"]))
+    for key, val in (kw.get("dependencies") or {}).items():
+        if isinstance(val, dict):
+            out.append((["kwk", "dependencies", key], val))
+    if kind == "el":
+        for idx, sub in enumerate(node.get("els", [])):
+            out.append((["els", idx], sub))
+        if node["k"] == "Not":
+            out.append((["not"], node["el"]))
+    return out
+
+
+def spec_nodes(world, limit=200):
+    """[(path, kind, node)] for every model node, each underlying node once."""
+    seen = []
+    out = []
+
+    def walk(path, spec, depth):
+        kind, node = deref(world, spec)
+        if any(node is s for s in seen) or len(out) >= limit or depth > 12:
+            return
+        seen.append(node)
+        out.append((path, kind, node))
+        for step, child in spec_children(world, kind, node):
+            walk(path + [step], child, depth + 1)
+
+    walk([], world["root"], 0)
+    for entry in world.get("classes", []):
+        walk([["class", entry["id"]]], {"k": "Class", "id": entry["id"]}, 0)
+    for sid in world.get("shared", {}):
+        walk([["shared", sid]], {"k": "Ref", "id": sid}, 0)
+    return out
+
+
+def spec_resolve(world, path):
+    """-> (kind, node) for a path on the model side."""
+    kind, node = deref(world, world["root"])
+    for step in path:
+        what = step[0]
+        if what == "class":
+            kind, node = "class", class_entry(world, step[1])
+            continue
+        if what == "shared":
+            kind, node = deref(world, {"k": "Ref", "id": step[1]})
+            continue
+        if kind == "class":
+            eff = effective(world, node["id"])
+            kw, props = eff["kw"], eff["props"]
+        else:
+            kw = node.get("kw", {})
+            props = kw.get("properties") or {}
+        if what == "kw":
+            child = kw[step[1]]
+        elif what in ("kwi", "kwk"):
+            child = kw[step[1]][step[2]]
+        elif what == "prop":
+            child = props[step[1]]["el"]
+        elif what == "els":
+            child = node["els"][step[1]]
+        elif what == "not":
+            child = node["el"]
+        else:
+            raise ValueError(step)
+        if not isinstance(child, dict) or "k" not in child:
+            raise KeyError(step)
+        kind, node = deref(world, child)
+    return kind, node
